@@ -227,7 +227,12 @@ def helpers_case(ctx: Ctx, stream: str, i: int) -> None:
     comps = [np.arange(int(np.prod(shape)), dtype=np.float64).reshape(shape) * (-1) ** c - c for c in range(len(kind))]
     a = cls(*[jnp.asarray(c, dtype=jnp.float32) for c in comps])
     for label, fn, ref in (('neg', lambda t: -t, lambda c: -c), ('abs', abs, np.abs), ('pos', lambda t: +t, lambda c: c),
-                           ('getitem', lambda t: t[0], lambda c: c[0]), ('ravel', lambda t: t.ravel(), lambda c: c.ravel()),
+                           ('getitem', lambda t: t[0], lambda c: c[0]), ('getitem-reversed', lambda t: t[::-1], lambda c: c[::-1]),
+                           ('getitem-neg-step', lambda t: t[-1::-2], lambda c: c[-1::-2]), ('getitem-last', lambda t: t[-1], lambda c: c[-1]),
+                           ('getitem-ellipsis-reversed', lambda t: t[..., ::-1], lambda c: c[..., ::-1]),
+                           ('getitem-slice', lambda t: t[1:], lambda c: c[1:]), ('getitem-empty', lambda t: t[2:1], lambda c: c[2:1]),
+                           ('getitem-array', lambda t: t[jnp.asarray([1, 0, 1])], lambda c: c[np.asarray([1, 0, 1])]),
+                           ('ravel', lambda t: t.ravel(), lambda c: c.ravel()),
                            ('reshape', lambda t: t.reshape((-1, 1)), lambda c: c.reshape((-1, 1)))):
         st, z = safe(fn, a)
         if st != 'ok' or type(z) is not cls or any(not np.array_equal(np.asarray(getattr(z, k.lower())), ref(c))
